@@ -125,10 +125,19 @@ type cand struct {
 	cost     [4]int
 	key      string
 	regs     []regSpec
-	mi, pid  int  // request (mi = -1: registration failure)
-	nf, na   int  // custom NotFound / NotAllowed handler installed before registration #nf / #na (-1: none)
-	tree     bool // the table was driven through search.Tree directly (family "tree")
+	mi, pid  int    // request (mi = -1: registration failure)
+	nf, na   int    // custom NotFound / NotAllowed handler installed before registration #nf / #na (-1: none)
+	tree     bool   // the table was driven through search.Tree directly (family "tree")
+	srv      *sProg // the case is a program against rest.Server (families "srv-*", server.go)
 	exp, got string
+}
+
+// describe renders the case for the violation line.
+func (c *cand) describe() string {
+	if c.srv != nil {
+		return c.key
+	}
+	return caseString(c.regs, c.nf, c.na, c.tree, c.mi, c.pid)
 }
 
 func cmpCost(a, b [4]int) int {
@@ -170,7 +179,8 @@ type worker struct {
 	nf, na           int
 	nfCalls, naCalls int
 	nfH, naH         hookHandler
-	treeMode         bool // set by runTree (for record)
+	treeMode         bool      // set by runTree (for record)
+	srv              *srvState // state of the server-level families (server.go)
 	// what is in flight (for panic reports)
 	curRegs []regSpec
 	curMi   int
@@ -289,7 +299,7 @@ func groupOf(class string) string {
 	kind, rest, _ := strings.Cut(class, ":")
 	parts := strings.Split(rest, "+")
 	for _, f := range parts[1:] {
-		if !strings.HasPrefix(f, "unclean-") && f != "hooks" && f != "tree" {
+		if !strings.HasPrefix(f, "unclean-") && f != "hooks" && f != "tree" && f != "server" && f != "reused-slice" && f != "conf" {
 			kind += "+" + f
 		}
 	}
@@ -717,7 +727,9 @@ type replayCase struct {
 	NotFoundAfter   *int `json:"set_not_found_handler_after,omitempty"`
 	NotAllowedAfter *int `json:"set_not_allowed_handler_after,omitempty"`
 	// Tree: the routes were added to a search.Tree directly (patterns not cleaned, methods unused)
-	Tree     bool   `json:"direct_search_tree,omitempty"`
+	Tree bool `json:"direct_search_tree,omitempty"`
+	// Server: the case is a program against rest.Server (see server.go); Routes is empty then
+	Server   *sProg `json:"server_program,omitempty"`
 	ReqMeth  string `json:"request_method,omitempty"`
 	ReqPath  string `json:"request_path,omitempty"`
 	Expected string `json:"expected"`
@@ -727,6 +739,14 @@ type replayCase struct {
 
 func (c *cand) replay() replayCase {
 	rc := replayCase{Expected: c.exp, Observed: c.got, Tree: c.tree}
+	if c.srv != nil {
+		rc.Server = c.srv
+		if c.mi >= 0 {
+			rc.ReqMeth, rc.ReqPath = allMethods[c.mi], paths[c.pid].raw
+		}
+		rc.GoTest = goTestSrv(c.srv, rc.ReqMeth, rc.ReqPath, c.exp)
+		return rc
+	}
 	if c.nf >= 0 {
 		v := c.nf
 		rc.NotFoundAfter = &v
